@@ -99,6 +99,13 @@ func (s *Sym) MakeFn(name string, args ...*RF) *RF {
 				return s.Not(args[0])
 			}
 		}
+		// && / || shapes: ite(c1, ite(c2,A,B), B) = ite(c1&&c2, A, B) ; ite(c1, A, ite(c2,A,B)) = ite(c1||c2, A, B)
+		if in := args[1].SingleAtom(); in != nil && in.Name == "ite" && in.Args[2].Equal(args[2]) {
+			return s.MakeFn("ite", s.And(args[0], in.Args[0]), in.Args[1], args[2])
+		}
+		if in := args[2].SingleAtom(); in != nil && in.Name == "ite" && in.Args[1].Equal(args[1]) {
+			return s.MakeFn("ite", s.Or(args[0], in.Args[0]), args[1], in.Args[2])
+		}
 		// ite(!c,a,b) = ite(c,b,a)
 		if c := args[0].SingleAtom(); c != nil && c.Name == "not" {
 			return s.MakeFn("ite", c.Args[0], args[2], args[1])
@@ -261,3 +268,84 @@ var fnAliases = map[string]string{
 }
 
 func isCmpName(n string) bool { return strings.HasPrefix(n, "cmp") }
+
+// BoolEquiv: propositional equivalence of two boolean normal forms, treating
+// every atomic condition as an independent variable (exact for the boolean
+// structure; conservative w.r.t. relations between the atomic conditions).
+func (s *Sym) BoolEquiv(a, b *RF) bool {
+	leaves := map[AtomID]int{}
+	var order []AtomID
+	var collect func(r *RF) bool
+	collect = func(r *RF) bool {
+		at := r.SingleAtom()
+		if at == nil {
+			return false
+		}
+		switch at.Name {
+		case "land", "lor", "not":
+			for _, x := range at.Args {
+				if !collect(x) {
+					return false
+				}
+			}
+			return true
+		case "true", "false":
+			return true
+		}
+		if _, ok := leaves[at.ID]; !ok {
+			leaves[at.ID] = len(order)
+			order = append(order, at.ID)
+		}
+		return true
+	}
+	if !collect(a) || !collect(b) || len(order) > 16 {
+		return false
+	}
+	// cmp!= is the negation of cmp== on the same arguments: share a variable
+	neg := map[AtomID]AtomID{}
+	for _, id := range order {
+		at := s.atoms[id]
+		if at.Name == "cmp!=" {
+			eq := s.MakeFn("cmp==", at.Args...).SingleAtom()
+			if _, ok := leaves[eq.ID]; ok {
+				neg[id] = eq.ID
+			}
+		}
+	}
+	var eval func(r *RF, m uint) bool
+	eval = func(r *RF, m uint) bool {
+		at := r.SingleAtom()
+		switch at.Name {
+		case "true":
+			return true
+		case "false":
+			return false
+		case "not":
+			return !eval(at.Args[0], m)
+		case "land":
+			for _, x := range at.Args {
+				if !eval(x, m) {
+					return false
+				}
+			}
+			return true
+		case "lor":
+			for _, x := range at.Args {
+				if eval(x, m) {
+					return true
+				}
+			}
+			return false
+		}
+		if e, ok := neg[at.ID]; ok {
+			return m&(1<<uint(leaves[e])) == 0
+		}
+		return m&(1<<uint(leaves[at.ID])) != 0
+	}
+	for m := uint(0); m < 1<<uint(len(order)); m++ {
+		if eval(a, m) != eval(b, m) {
+			return false
+		}
+	}
+	return true
+}
